@@ -357,6 +357,9 @@ def _pdhg(a):
         rs = np.random.RandomState(5)
         w = rs.uniform(0.5, 1.0, n)
         tau = tau * w
+    if a.get("sigma_ratio"):
+        # array-valued dual steps of very different size: the accelerated variants must use the SMALLEST one
+        sigma = (1.0 / nrm) * np.geomspace(1.0 / float(a["sigma_ratio"]), 1.0, m)
     proxfc = lambda s, v: (v - s * y) / (1 + s)        # prox of sigma f*, f* = 0.5|u|^2 + <u,y>
     gp, gd = float(a.get("gamma_primal", 0)), float(a.get("gamma_dual", 0))
     bad = []
@@ -722,6 +725,8 @@ def _prox(a):
         feas = lambda x: x * min(1.0, eps / max(1e-30, float(np.sum(np.abs(x)))))
     elif kind == "Box":
         y = y.real.astype(np.float64)
+        if a.get("int_input"):
+            y = np.round(3 * y).astype(np.int64)          # an integer-dtype input with fractional bounds (the unit test's own dtype)
         op = P.BoxConstraint(shape, -0.3, 0.5)
         g = lambda x: 0.0 if np.all((x >= -0.3 - 1e-12) & (x <= 0.5 + 1e-12)) else inf
         feas = lambda x: np.clip(x.real, -0.3, 0.5)
